@@ -22,8 +22,8 @@ def run(ctx):
             if not ctx.cov["design_step_detects_pre_fix_FinishStateSync"]:
                 raise vlib.Infra("sensitivity: the model of the pre-fix verifyProcessingBlocks no longer violates FinishNeverFails")
     # the last scenarios finish state sync between the rejection of a parent and of its child
-    races = ctx.pick(4, 60)
-    fails, stats = S.record_and_validate(ctx, ["sync0", "syncahead"], ctx.pick(64, 2460), ctx.pick(50, 80), "sync",
+    races = ctx.pick(4, 40)
+    fails, stats = S.record_and_validate(ctx, ["sync0", "syncahead"], ctx.pick(64, 940), ctx.pick(50, 70), "sync",
                                          tail_kind="race", tail=races)
     if ctx.only is None:
         if not stats.get("ev_finishsync") or not stats.get("ev_startsync"):
